@@ -29,6 +29,23 @@ func main() {
 		"non-trivial = a block reached the chain service / an ancestor was found / a message was accepted; distinct by (op, answer)")
 	defer run.Finish()
 
+	// development aid: C17_ONLY=<part> runs one part only (never set by ./check)
+	if only := os.Getenv("C17_ONLY"); only != "" {
+		switch only {
+		case "wire":
+			wireRuns(run, run.Pick(24, 200))
+		case "e2e":
+			e2eRuns(run, run.Pick(60, 500))
+		case "svc":
+			lateFinderReply(run)
+			svcSessions(run, run.Pick(40, 300))
+		case "recv":
+			recvSessions(run, run.Pick(200, 2000))
+		case "finder":
+			finderFlows(run, run.Pick(30, 200))
+		}
+		return
+	}
 	finderExhaustive(run, 40)
 	finderRandom(run, run.Pick(1500, 12000))
 	finderLong(run)
@@ -40,4 +57,5 @@ func main() {
 	svcSessions(run, run.Pick(40, 300))
 	recvSessions(run, run.Pick(200, 2000))
 	e2eRuns(run, run.Pick(60, 500))
+	wireRuns(run, run.Pick(24, 200))
 }
